@@ -1182,6 +1182,19 @@ class Tensor:
 
         new_tensor.getRoot().updateCoords(func, depth=depth, **kwargs)
 
+        #
+        # A shape that was only estimated from the old coordinates
+        # must be estimated again (unless the caller gave the new shape)
+        #
+        if kwargs.get("new_shape") is None:
+            for rank in new_tensor.ranks:
+                attrs = rank.getAttrs()
+                fibers = rank.getFibers()
+
+                if attrs.getEstimatedShape() and len(fibers) > 0:
+                    estimate = max([f.estimateShape(all_ranks=False) for f in fibers])
+                    attrs.setShape(estimate if estimate != 0 else None)
+
         return new_tensor
 
 
